@@ -11,7 +11,10 @@ package server
 // streams, subjects, messages and NATS credentials with recognisable contents, and in a share of
 // the programs also a recognisable server id, namespace, host, NATS server list and data
 // directory; simulated days pass, the server is stopped, crashed and restarted, its instance id
-// file is pre-seeded, broken or deleted.
+// file is pre-seeded, broken or deleted. In shares of the programs reports fail (transport errors and
+// 5xx answers whose texts name addresses), the environment variable holds other spellings of "off"
+// or no boolean at all next to a file or program that disables telemetry, and Stop is called while
+// Start of the same server is still running (at a chosen log line of Start).
 //
 // Oracle, per incarnation of the server (a request is attributed to the incarnation whose task
 // made it): disabled => not one request, ever (also not while stopping); enabled => requests
@@ -19,7 +22,9 @@ package server
 // the documented fields holding what they are documented to hold (the version, the time of the
 // report, facts about the machine), a random-UUID instance id that is the one found in the
 // instance id file, stable across restarts and a different one after the file was deleted; and
-// neither body nor URL nor headers contain any of the recognisable strings.
+// neither body nor URL nor headers contain any of the recognisable strings. Once Stop has returned
+// (and Start, if Stop overtook it) that incarnation makes no request any more: the run listens
+// for two reporting intervals after the last stop and for up to three hours after a raced one.
 //
 // Blindness (tooling trouble, not a verdict): an enabled collector with a transport of its own,
 // or an enabled incarnation that lived through more than a reporting interval without a request
@@ -38,11 +43,13 @@ import (
 	"regexp"
 	"runtime"
 	"sort"
+	"strconv"
 	"strings"
 	"testing"
 	"time"
 
 	client "github.com/liftbridge-io/liftbridge-api/v2/go"
+	lblog "github.com/liftbridge-io/liftbridge/server/logger"
 	"github.com/liftbridge-io/liftbridge/server/telemetry"
 
 	"verif.local/simrt"
@@ -64,8 +71,10 @@ func genC19(r *simrt.Rand, tier string, idx int) *hx.Program {
 		p.P["maxsteps"] = 2000000
 	}
 	// 0 programmatic, 1 file, 2 environment, 3 file (silent about telemetry) + environment,
-	// 4 file that enables telemetry or names only its interval + environment that disables it
-	p.P["route"] = int64(r.Intn(5))
+	// 4 file that enables telemetry or names only its interval + environment that disables it,
+	// 5 an environment value that is not the documented "false" (another spelling of it, or no boolean at all)
+	//   next to a file or a program that disables telemetry, or next to nothing
+	p.P["route"] = int64(r.Intn(6))
 	p.P["enabled"] = int64(r.Intn(2)) // what the operator asks for
 	if p.P["route"] == 4 {
 		// route 4 is about the environment's "off" overriding the file: "enabled" here means that the variable
@@ -80,8 +89,14 @@ func genC19(r *simrt.Rand, tier string, idx int) *hx.Program {
 	if p.P["days"] == 0 && p.P["interval_s"] == 86400 {
 		p.P["interval_s"] = 60
 	}
+	if p.P["route"] == 5 {
+		p.P["enabled"] = 0 // (what is expected follows from the value and its company: see c19OddEnv)
+		p.P["envraw"] = int64(r.Intn(len(c19EnvRaw)))
+		p.P["envwith"] = int64(r.Intn(3)) // 0 a file with telemetry.enabled: false, 1 the program disables it, 2 nothing else
+		p.P["interval_s"] = 0
+	}
 	mix := append([]weighted(nil), c19mix...)
-	if r.Pct(35) {
+	if p.P["route"] != 5 && r.Pct(35) {
 		// the operator changes the setting between two starts (same route); every incarnation is judged by its own setting
 		p.P["flips"] = 1
 		mix = append(mix, weighted{"flip", 10})
@@ -107,6 +122,15 @@ func genC19(r *simrt.Rand, tier string, idx int) *hx.Program {
 	if r.Pct(20) {
 		p.P["twin"] = 1 // a second installation's collector is created next to the server: its id must be another one
 	}
+	if r.Pct(25) {
+		// reports that fail: 1 the transport returns an error (its text names a proxy address), 2 the endpoint
+		// answers 500/503 (its answer names a proxy), 3 both; which requests fail is drawn from the seed
+		p.P["httpfail"] = int64(1 + r.Intn(3))
+		p.P["failseed"] = int64(1 + r.Intn(1<<30))
+	}
+	if r.Pct(25) {
+		mix = append(mix, weighted{"racestop", 10}) // Stop is called while Start of the same server has not returned
+	}
 	n := 4 + r.Intn(12)
 	for i := 0; i < n; i++ {
 		p.Ops = append(p.Ops, hx.Op{K: pickWeighted(r, mix), A: []int64{int64(r.Intn(8)), int64(r.Intn(8))}})
@@ -118,9 +142,37 @@ func genC19(r *simrt.Rand, tier string, idx int) *hx.Program {
 			total += c19Sleep(p, op)
 		}
 	}
-	p.P["horizon_s"] = int64(total/time.Second) + int64(len(p.Ops))*300
+	// (and the silence after the last stop is listened to for two reporting intervals; after every raced stop for a while)
+	p.P["horizon_s"] = int64(total/time.Second) + int64(len(p.Ops))*(300+3*3600) + 2*86400 + 3600
 	return p
 }
+
+// c19RaceLogger lets the harness know how far Start and Stop of a server have got: it is told of every log line.
+type c19RaceLogger struct {
+	lblog.Logger
+	at func()
+}
+
+func (l *c19RaceLogger) Infof(f string, v ...interface{})  { l.at(); l.Logger.Infof(f, v...) }
+func (l *c19RaceLogger) Debugf(f string, v ...interface{}) { l.at(); l.Logger.Debugf(f, v...) }
+func (l *c19RaceLogger) Warnf(f string, v ...interface{})  { l.at(); l.Logger.Warnf(f, v...) }
+func (l *c19RaceLogger) Errorf(f string, v ...interface{}) { l.at(); l.Logger.Errorf(f, v...) }
+func (l *c19RaceLogger) Info(v ...interface{})             { l.at(); l.Logger.Info(v...) }
+func (l *c19RaceLogger) Debug(v ...interface{})            { l.at(); l.Logger.Debug(v...) }
+func (l *c19RaceLogger) Warn(v ...interface{})             { l.at(); l.Logger.Warn(v...) }
+
+// c19AvoidStopBeforeRaftNodeIsSet: a Stop that gets as far as closing s.raftInitialized ("in case the Raft node was
+// never initialized") before Start has reached setRaft makes Start panic there with "close of closed channel"
+// (server.go, Stop and setRaft) - a defect of liftbridge's start/stop handling that has nothing to do with telemetry
+// and that every early Stop runs into (replay: /tmp/impl/C19-stop-during-start-panics-replay.json). While it is
+// there the raced Stop is only called once Start has set the Raft node (the collector exists by then; what is left
+// of Start are subscriptions, the API server, the leadership loop and the start of the collector). Set to false to
+// let Stop arrive at any log line of Start.
+const c19AvoidStopBeforeRaftNodeIsSet = true
+
+// c19EnvRaw: values of LIFTBRIDGE_TELEMETRY_ENABLED other than the documented "false". Those strconv.ParseBool
+// accepts all mean "off"; the others are no booleans, so the variable decides nothing.
+var c19EnvRaw = []string{"off", "no", "disabled", "", "FALSE", "f", "0", "False"}
 
 // c19Sleep is how long a sleep op sleeps: seconds to an hour in most programs, hours to days in some.
 func c19Sleep(p *hx.Program, op hx.Op) time.Duration {
@@ -152,13 +204,24 @@ type c19Inc struct {
 	upSleep   time.Duration
 	interval  time.Duration
 	requests  int
+	stopped   bool // Stop has returned (and, when it raced Start, Start has returned too)
+	reqsThen  int  // requests recorded in the run up to that moment
+	raced     bool
 }
 
 type c19Recorder struct {
-	sim  *simrt.Sim
-	reqs []c19Request
-	cur  int
+	sim      *simrt.Sim
+	reqs     []c19Request
+	cur      int
+	failMode int64       // 0 every report is accepted, 1 transport errors, 2 error statuses, 3 both
+	failRand *simrt.Rand // which requests fail
 }
+
+// what a failing report tells the collector: texts of the kind net/http produces, naming addresses of the operator's network
+const (
+	c19TransportError = "proxyconnect tcp: dial tcp 10.99.88.77:3128: connect: connection refused"
+	c19ErrorAnswer    = "upstream 10.99.88.78:8443 unreachable (via sekret-proxy.internal)"
+)
 
 func (r *c19Recorder) RoundTrip(req *http.Request) (*http.Response, error) {
 	var body []byte
@@ -169,8 +232,27 @@ func (r *c19Recorder) RoundTrip(req *http.Request) (*http.Response, error) {
 	if t := simrt.Cur(); t != nil {
 		node = t.Node
 	}
+	if err := req.Context().Err(); err != nil {
+		// like the real transport: a request whose context is done before anything was sent never leaves the process
+		r.sim.Count("probe.http_request_cancelled_before_sending")
+		return nil, err
+	}
 	r.reqs = append(r.reqs, c19Request{url: req.URL.String(), method: req.Method, header: req.Header.Clone(), body: body, at: r.sim.Now(), wall: time.Now(), node: node, inc: r.cur})
 	r.sim.Count("probe.http_requests")
+	if r.failMode != 0 && r.failRand.Pct(50) {
+		mode := r.failMode
+		if mode == 3 {
+			mode = int64(1 + r.failRand.Intn(2))
+		}
+		if mode == 1 {
+			r.sim.Count("probe.http_request_failed_with_error")
+			return nil, fmt.Errorf("%s", c19TransportError)
+		}
+		r.sim.Count("probe.http_request_answered_5xx")
+		code := []int{500, 503}[r.failRand.Intn(2)]
+		return &http.Response{StatusCode: code, Status: fmt.Sprintf("%d %s", code, http.StatusText(code)), Body: io.NopCloser(strings.NewReader(c19ErrorAnswer)),
+			Header: http.Header{"Via": {"1.1 sekret-proxy.internal"}, "Content-Type": {"text/plain"}}, Request: req}, nil
+	}
 	return &http.Response{StatusCode: 200, Status: "200 OK", Body: io.NopCloser(bytes.NewReader(nil)), Header: http.Header{}, Request: req}, nil
 }
 
@@ -285,10 +367,19 @@ func execC19(t *testing.T, prog *hx.Program, dec *simrt.Decider, verbose bool) *
 	interval := prog.Param("interval_s", 86400)
 	marked := prog.Param("marked", 0) == 1
 	secrets := []string{"sekret-stream", "sekret.subject", "sekret-message-body", "sekret-user", "sekret-password", "sekret-key",
-		"sekret-server-id", "sekret-namespace", "sekret-host", "sekret-nats", "sekret-datadir", "sekret"}
+		"sekret-server-id", "sekret-namespace", "sekret-host", "sekret-nats", "sekret-datadir", "sekret-proxy", "sekret",
+		"10.99.88.", "proxyconnect", "dial tcp", "connection refused", "unreachable"}
 	var rec *c19Recorder
 	var incs []*c19Inc
 	var runDir, twinID, blind string
+	envRaw := c19EnvRaw[int(prog.Param("envraw", 0))%len(c19EnvRaw)]
+	if route == 5 {
+		// next to a file or a program that says "off" the answer is "off" whatever the variable holds (every value
+		// drawn is either a spelling of "off" or no boolean at all); alone, a boolean spelling of "off" means off
+		// and anything else decides nothing: the default applies, and nothing is demanded of such a run
+		_, notBool := strconv.ParseBool(envRaw)
+		want = prog.Param("envwith", 0) == 2 && notBool != nil
+	}
 	seedID, seedFile := "", ""
 	if s := prog.Param("seedid", 0); s != 0 {
 		seedID, seedFile = c19SeedID(s)
@@ -307,7 +398,7 @@ func execC19(t *testing.T, prog *hx.Program, dec *simrt.Decider, verbose bool) *
 	defer func() { http.DefaultTransport = oldTransport }()
 
 	oc := runH3(t, prog, dec, verbose, 1, func(h *h3) {
-		rec = &c19Recorder{sim: h.s, cur: -1}
+		rec = &c19Recorder{sim: h.s, cur: -1, failMode: prog.Param("httpfail", 0), failRand: simrt.NewRand(uint64(prog.Param("failseed", 1)))}
 		http.DefaultTransport = rec
 		runDir = h.dir
 		spell := func(b bool) string {
@@ -353,6 +444,30 @@ func execC19(t *testing.T, prog *hx.Program, dec *simrt.Decider, verbose bool) *
 				os.WriteFile(cfgFile, []byte("logging:\n  level: error\n"), 0o644)
 				os.Setenv(envName, spell(curWant))
 				c, err = NewConfig(cfgFile)
+			case 5:
+				// an environment value that is not the documented "false"
+				os.Setenv(envName, envRaw)
+				switch prog.Param("envwith", 0) {
+				case 0: // ... and a configuration file that disables telemetry
+					os.WriteFile(cfgFile, []byte("telemetry:\n  enabled: false\n"), 0o644)
+					c, err = NewConfig(cfgFile)
+				case 1: // ... and a program that disables it, in the configuration it got from NewConfig or in one of its own
+					if prog.Param("envform", 0)%2 == 0 {
+						c, err = NewConfig("")
+					} else {
+						c = NewDefaultConfig()
+					}
+					if c != nil {
+						c.Telemetry.Enabled = false
+					}
+				default: // ... and nothing else: no file, or one that is silent about telemetry
+					if prog.Param("envform", 0)%2 == 0 {
+						c, err = NewConfig("")
+					} else {
+						os.WriteFile(cfgFile, []byte("logging:\n  level: error\n"), 0o644)
+						c, err = NewConfig(cfgFile)
+					}
+				}
 			default:
 				// a configuration file that enables telemetry, or has a telemetry section naming only the interval
 				// (telemetry is on by default), and the documented environment opt-out: the variable "takes
@@ -403,10 +518,8 @@ func execC19(t *testing.T, prog *hx.Program, dec *simrt.Decider, verbose bool) *
 			seedLive = true
 			h.s.Count("probe.instance_id_seeded")
 		}
-		up := func() bool {
-			if n.up {
-				return true
-			}
+		// begin opens the record of the server's next incarnation (and lets the disk fault happen before its first start)
+		begin := func() *c19Inc {
 			if f := prog.Param("idfault", 0); f != 0 && !faulted {
 				faulted = true
 				os.MkdirAll(n.dir, 0o755)
@@ -423,6 +536,19 @@ func execC19(t *testing.T, prog *hx.Program, dec *simrt.Decider, verbose bool) *
 			if len(incs) > 1 && incs[len(incs)-2].want != inc.want {
 				h.s.Count("probe.restart_flipped_enabled")
 			}
+			return inc
+		}
+		// stop shuts the server down cleanly; whatever that incarnation sends from now on, it sends after Stop has returned
+		stop := func() {
+			h.stopNode(0)
+			inc := incs[len(incs)-1]
+			inc.stopped, inc.reqsThen = true, len(rec.reqs)
+		}
+		up := func() bool {
+			if n.up {
+				return true
+			}
+			inc := begin()
 			err := h.startNode(0)
 			inc.node = n.node
 			if err != nil {
@@ -489,7 +615,7 @@ func execC19(t *testing.T, prog *hx.Program, dec *simrt.Decider, verbose bool) *
 				}
 			case "restart":
 				if n.up {
-					h.stopNode(0)
+					stop()
 				}
 				up()
 			case "crash":
@@ -499,14 +625,14 @@ func execC19(t *testing.T, prog *hx.Program, dec *simrt.Decider, verbose bool) *
 				up()
 			case "stop":
 				if n.up {
-					h.stopNode(0)
+					stop()
 				}
 			case "flip":
 				// the operator changes the setting; it takes effect with the next start, which may be right now
 				curWant = !curWant
 				if op.Arg(0, 0)%2 == 0 {
 					if n.up {
-						h.stopNode(0)
+						stop()
 					}
 					up()
 				}
@@ -514,7 +640,7 @@ func execC19(t *testing.T, prog *hx.Program, dec *simrt.Decider, verbose bool) *
 				// the server goes down, the instance id file disappears (whatever it was), the server comes back
 				if n.up {
 					if op.Arg(0, 0)%2 == 0 {
-						h.stopNode(0)
+						stop()
 					} else {
 						h.crashNode(0)
 					}
@@ -524,10 +650,92 @@ func execC19(t *testing.T, prog *hx.Program, dec *simrt.Decider, verbose bool) *
 				seedLive = false
 				h.s.Count("probe.instance_id_file_deleted")
 				up()
+			case "racestop":
+				// the server is started and, while Start has not returned, stopped (an embedding program's Stop, an
+				// operator's interrupt during start-up); then nothing happens for a while
+				if n.up {
+					stop()
+				}
+				inc := begin()
+				inc.raced = true
+				h.nextSim++
+				n.node = h.nextSim
+				inc.node = n.node
+				if n.srv != nil { // (as startNode does: the previous incarnation's file lock goes with it)
+					if r, ok := n.srv.raft.Load().(*raftNode); ok && r != nil && r.store != nil {
+						releaseBoltLock(r.store)
+					}
+				}
+				node := n.node
+				var srv *Server
+				var startErr error
+				var startTask, stopTask *simrt.Task
+				startDone, stopDone, release, stopLogged, logs := false, false, false, false, 0
+				// where Stop arrives: when Start writes its k-th log line. Then (mode 0) Start pauses until Stop has returned,
+				// (1) both run on as the scheduler interleaves them, (2) Start pauses until Stop writes its first log line (by
+				// then it has dealt with the collector), and Stop pauses there until Start has returned. Pauses are bounded.
+				k := 1 + int(op.Arg(0, 0)*3+op.Arg(1, 0))%11 // (Start's own task writes ten lines; 11: Stop arrives after Start)
+				mode := int(op.Arg(1, 0)/3) % 3
+				at := func() {
+					switch simrt.Cur() {
+					case startTask:
+						logs++
+						if logs >= k && !release && (!c19AvoidStopBeforeRaftNodeIsSet || srv.raft.Load() != nil) {
+							release = true
+							h.s.Count(fmt.Sprintf("probe.stop_released_at_log_line_of_start.%02d", logs))
+							if mode != 1 {
+								h.waitFor("the stop", 5*time.Second, func() bool { return stopDone || (mode == 2 && stopLogged) })
+							}
+						}
+					case stopTask:
+						if !stopLogged {
+							stopLogged = true
+							if mode == 2 {
+								h.waitFor("the start", 5*time.Second, func() bool { return startDone })
+							}
+						}
+					}
+				}
+				startTask = h.s.GoNode(node, "start:"+n.id, func() {
+					srv = New(h.config(n, nil))
+					srv.logger = &c19RaceLogger{Logger: &spyLogger{Logger: srv.logger, hits: h.logHits}, at: at}
+					n.srv = srv
+					startErr = srv.startSim()
+					startDone = true
+				})
+				stopTask = h.s.GoNode(node, "stop:"+n.id, func() {
+					simrt.WaitUntil("start is under way", func() bool { return release || startDone })
+					if !startDone {
+						h.s.Count("probe.stop_called_during_start")
+						if srv.telemetry != nil {
+							h.s.Count("probe.stop_called_during_start_with_collector")
+						} else if inc.want {
+							h.s.Count("probe.stop_called_during_start_before_collector")
+						}
+					}
+					srv.Stop()
+					stopDone = true
+				})
+				simrt.WaitUntil("raced stop", func() bool { return (startDone && stopDone) || h.s.Crashed(node) || len(h.s.Panics) > 0 })
+				if len(h.s.Panics) > 0 {
+					break
+				}
+				if startErr == nil {
+					h.s.Count("probe.start_succeeded_despite_stop")
+				}
+				inc.stopped, inc.reqsThen = true, len(rec.reqs)
+				simrt.Sleep([]time.Duration{time.Minute, 20 * time.Minute, 65 * time.Minute, 3 * time.Hour}[int(op.Arg(0, 0)+op.Arg(1, 0))%4])
+				// whatever is left of that incarnation is removed, so that the program can go on with the next one
+				n.up = true
+				h.crashNode(0)
 			}
 		}
 		if n.up && !h.stop && len(h.s.Panics) == 0 {
-			h.stopNode(0)
+			stop()
+		}
+		if !h.stop && len(h.s.Panics) == 0 && h.oc.Trouble == "" {
+			// the server is down for good: two reporting intervals of silence
+			simrt.Sleep(2*cfgInterval + time.Minute)
 		}
 	})
 	if rec == nil || oc.Trouble != "" {
@@ -548,8 +756,12 @@ func execC19(t *testing.T, prog *hx.Program, dec *simrt.Decider, verbose bool) *
 		}
 		oc.Counters[k] += n
 	}
-	routes := []string{"programmatic config", "config file", "environment variable", "config file + environment variable", "config file that enables telemetry + environment variable that disables it"}
-	routeSig := []string{"programmatic-config", "config-file", "environment-variable", "config-file-+-environment-variable", "config-file-enables-+-environment-variable-disables"}
+	routes := []string{"programmatic config", "config file", "environment variable", "config file + environment variable", "config file that enables telemetry + environment variable that disables it", ""}
+	routeSig := []string{"programmatic-config", "config-file", "environment-variable", "config-file-+-environment-variable", "config-file-enables-+-environment-variable-disables", "odd-environment-value"}
+	if route == 5 {
+		routes[5] = []string{"config file with telemetry.enabled: false", "programmatic config", "environment variable alone"}[prog.Param("envwith", 0)%3] + fmt.Sprintf(", with %s=%q in the environment", envName, envRaw)
+		routeSig[5] = []string{"config-file-+-odd-environment-value", "programmatic-config-+-odd-environment-value", "environment-variable-other-spelling"}[prog.Param("envwith", 0)%3]
+	}
 	if route == 4 {
 		routes[4] = []string{"config file naming only the telemetry interval", "config file with telemetry.enabled: true", "config file with telemetry.enabled: true and an interval"}[prog.Param("fileform", 0)%3] + " + environment variable that disables telemetry"
 	}
@@ -581,16 +793,17 @@ func execC19(t *testing.T, prog *hx.Program, dec *simrt.Decider, verbose bool) *
 	}
 	byEpoch := map[int]idSeen{}
 	var epochs []int
-	for _, rq := range rec.reqs {
+	for ri, rq := range rec.reqs {
 		// whose request is it?
 		var inc *c19Inc
-		for _, x := range incs {
+		incNo := 0
+		for i, x := range incs {
 			if x.node == rq.node {
-				inc = x
+				inc, incNo = x, i+1
 			}
 		}
 		if inc == nil && rq.inc >= 0 && rq.inc < len(incs) {
-			inc = incs[rq.inc]
+			inc, incNo = incs[rq.inc], rq.inc+1
 		}
 		if inc == nil {
 			oc.Trouble = fmt.Sprintf("a request to %s at %v belongs to no incarnation of the server", rq.url, rq.at)
@@ -599,7 +812,18 @@ func execC19(t *testing.T, prog *hx.Program, dec *simrt.Decider, verbose bool) *
 		inc.requests++
 		oc.Checks++
 		if !inc.want {
-			fail("C19/disabled-but-reported/"+routeSig[route], "telemetry was disabled through the %s (start #%d of the server, of %d), yet that server made a request to %s at %v (%d request(s) in the whole run)", routes[route], rq.inc+1, len(incs), rq.url, rq.at, len(rec.reqs))
+			if inc.stopped && ri >= inc.reqsThen {
+				count("probe.judged_request_after_stop_of_disabled", 1)
+			}
+			fail("C19/disabled-but-reported/"+routeSig[route], "telemetry was disabled through the %s (start #%d of the server, of %d), yet that server made a request to %s at %v (%d request(s) in the whole run)", routes[route], incNo, len(incs), rq.url, rq.at, len(rec.reqs))
+			break
+		}
+		if inc.stopped && ri >= inc.reqsThen {
+			how := "Stop had returned"
+			if inc.raced {
+				how = "Stop, called while Start was running, and Start had both returned"
+			}
+			fail("C19/reports-after-stop", "start #%d of the server: %s (%d request(s) in the run until then), and that server made another request at %v", incNo, how, inc.reqsThen, rq.at)
 			break
 		}
 		if !strings.HasPrefix(rq.url, "https://telemetry.basekick.net/") {
